@@ -2,7 +2,9 @@
 
 use crate::engine::*;
 
+pub mod c01;
 pub mod c05;
+pub mod c07;
 pub mod c11;
 pub mod c12;
 pub mod c13;
@@ -17,7 +19,9 @@ pub type ReplayFn = fn(&mut Ctx, &str, &[u8]) -> Result<Option<String>, Fail>;
 
 pub fn registry(id: &str) -> Option<(&'static str, fn(&mut Ctx), ReplayFn)> {
     Some(match id {
+        "C01" => ("C01", c01::run, c01::replay),
         "C05" => ("C05", c05::run, c05::replay),
+        "C07" => ("C07", c07::run, c07::replay),
         "C11" => ("C11", c11::run, c11::replay),
         "C12" => ("C12", c12::run, c12::replay),
         "C13" => ("C13", c13::run, c13::replay),
@@ -31,7 +35,7 @@ pub fn registry(id: &str) -> Option<(&'static str, fn(&mut Ctx), ReplayFn)> {
     })
 }
 
-pub const ALL_IDS: &[&str] = &["C05", "C11", "C12", "C13", "C14", "C16", "C17", "C18", "C19", "C20"];
+pub const ALL_IDS: &[&str] = &["C01", "C05", "C07", "C11", "C12", "C13", "C14", "C16", "C17", "C18", "C19", "C20"];
 
 /// E4: replay every committed reproduction of this property.
 /// A file that matches an *open* known finding prints its KNOWN-FINDING line;
